@@ -19,6 +19,8 @@ package xpkg
 import (
 	"compress/gzip"
 	"io"
+
+	"github.com/crossplane/crossplane-runtime/pkg/errors"
 )
 
 var _ io.ReadCloser = &gzipReadCloser{}
@@ -59,9 +61,10 @@ var _ io.ReadCloser = &teeReadCloser{}
 
 // teeReadCloser is a TeeReader that also closes the underlying writer.
 type teeReadCloser struct {
-	w io.WriteCloser
-	r io.ReadCloser
-	t io.Reader
+	w   io.WriteCloser
+	r   io.ReadCloser
+	t   io.Reader
+	err error
 }
 
 // TeeReadCloser constructs a teeReadCloser from the passed reader and writer.
@@ -73,9 +76,20 @@ func TeeReadCloser(r io.ReadCloser, w io.WriteCloser) io.ReadCloser {
 	}
 }
 
-// Read calls the underlying TeeReader Read method.
+// Read calls the underlying TeeReader Read method. An error is returned by all
+// subsequent calls too: a failed write loses the data that was read, so a
+// consumer that overlooks the error once (bufio.Reader.ReadLine does when it
+// holds a partial line) must not be able to carry on with the rest of the
+// stream, or to see a clean EOF.
 func (t *teeReadCloser) Read(b []byte) (int, error) {
-	return t.t.Read(b)
+	if t.err != nil {
+		return 0, t.err
+	}
+	n, err := t.t.Read(b)
+	if err != nil && !errors.Is(err, io.EOF) {
+		t.err = err
+	}
+	return n, err
 }
 
 // Close closes the underlying ReadCloser, then the Writer for the TeeReader.
